@@ -79,6 +79,8 @@ def plan(thorough):
         ("matx3", dict(slots=S2, fams=("csr", "banded", "cscr", "bcsr"), depth=3), {}),
         ("xchain5", dict(slots=S3, fams=("csr", "banded", "bcsr", "cscr"), depth=5, tys=(1,), vars_=("full", "o2"), ops=("create", "convertx")), {}),
         ("fam3", dict(slots=S2, fams=("cscr", "banded", "dm"), depth=3), {}),
+        # pure model checking: all nine families in one pool (no behaviours emitted)
+        ("mcall3", dict(slots=S2, fams=("dv", "dvb", "sv", "csr", "bcsr", "cscr", "banded", "dm", "tv"), depth=3, tys=(1, 2), emit=False), {}),
     ]
 
 
